@@ -371,13 +371,19 @@ fn observe(m: &proj::ModuleFacts, c: &Case, i: usize) -> Result<Obs, String> {
 pub fn run(cfg: &RunCfg) -> Report {
     let mut rep = Report::new(
         "C04",
-        "[plus contained subtypes as operands of |, ^, EXCEPT in either position and in three-operand unions / intersections, judged for `never excludes a permitted value`] subtype expressions over the 7-point endpoint alphabet {MIN,-3,0,2,7,300,MAX} (sizes: {0,2,7,300,MAX}): every 1- and 2-operand expression (single values, ranges incl. MIN/MAX) × {|, ^, EXCEPT} (also spelled UNION/INTERSECTION), ALL EXCEPT, inner and outer extension marker, and a seeded sample of 3-operand expressions and of 2 serial constraints, on INTEGER (assignment, component, constrained reference, bounds by value reference) and SIZE of OCTET STRING / BIT STRING / IA5String / SEQUENCE OF; oracle: never-excludes at every finite endpoint ±1, exact hull, extensible iff marker. Non-trivial = compiled and annotation read back; distinct = distinct (context, notation)",
+        "[plus a size constraint intersected with a permitted alphabet inside one constraint, in both orders, on six string types, as component and as assignment: the size annotation equals the one of the size constraint alone] [plus contained subtypes as operands of |, ^, EXCEPT in either position and in three-operand unions / intersections, judged for `never excludes a permitted value`] subtype expressions over the 7-point endpoint alphabet {MIN,-3,0,2,7,300,MAX} (sizes: {0,2,7,300,MAX}): every 1- and 2-operand expression (single values, ranges incl. MIN/MAX) × {|, ^, EXCEPT} (also spelled UNION/INTERSECTION), ALL EXCEPT, inner and outer extension marker, and a seeded sample of 3-operand expressions and of 2 serial constraints, on INTEGER (assignment, component, constrained reference, bounds by value reference) and SIZE of OCTET STRING / BIT STRING / IA5String / SEQUENCE OF; oracle: never-excludes at every finite endpoint ±1, exact hull, extensible iff marker. Non-trivial = compiled and annotation read back; distinct = distinct (context, notation)",
     );
     if let Some(r) = &cfg.replay {
         let r = r.get("case").unwrap_or(r);
         if let (Some(t), Some(sx), Some(comp)) = (r["contained_text"].as_str(), r["contained_sx"].as_str(), r["contained_component"].as_bool()) {
             contained_family(&[(t.to_string(), sx.to_string(), comp)], &mut rep);
             return rep;
+        }
+        if let Some(a) = r["size_alphabet"].as_array() {
+            if let (Some(t), Some(sz), Some(al), Some(af), Some(comp)) = (a[0].as_str(), a[1].as_str(), a[2].as_str(), a[3].as_bool(), a[4].as_bool()) {
+                size_with_alphabet_family(&[(t.to_string(), sz.to_string(), al.to_string(), af, comp)], &mut rep);
+                return rep;
+            }
         }
     }
     let cases: Vec<Case> = if let Some(r) = &cfg.replay { vec![case_from_json(r).expect("bad replay")] } else {
@@ -509,6 +515,7 @@ pub fn run(cfg: &RunCfg) -> Report {
     }
     if cfg.replay.is_none() {
         contained_family(&gen_contained(), &mut rep);
+        size_with_alphabet_family(&gen_size_with_alphabet(), &mut rep);
     }
     rep
 }
@@ -614,6 +621,79 @@ fn contained_family(cases: &[(String, String, bool)], rep: &mut Report) {
             }
         }
         Err(e) => rep.harness_errors.push(e),
+    }
+}
+
+/// A size constraint intersected, inside one constraint, with a permitted alphabet: the alphabet has no say in the
+/// size bound, so the size annotation must be the one the size constraint alone gets. (type, size text, alphabet text,
+/// alphabet first?, component?)
+fn gen_size_with_alphabet() -> Vec<(String, String, String, bool, bool)> {
+    let mut out = Vec::new();
+    for ty in ["IA5String", "PrintableString", "VisibleString", "NumericString", "BMPString", "UTF8String"] {
+        for size in ["5", "5, ...", "2..8", "2..8, ...", "0..MAX", "3..MAX, ...", "1 | 4", "2..4 | 6..8, ..."] {
+            for alpha in ["\"1\"..\"6\"", "\"123\"", "\"1\"..\"3\" | \"7\"", "\"1\"..\"6\", ..."] {
+                for alpha_first in [false, true] {
+                    for comp in [true, false] {
+                        out.push((ty.to_string(), size.to_string(), alpha.to_string(), alpha_first, comp));
+                    }
+                }
+            }
+        }
+    }
+    out
+}
+
+fn size_with_alphabet_family(cases: &[(String, String, String, bool, bool)], rep: &mut Report) {
+    let rcfg = rasn_compiler::prelude::RasnConfig::default();
+    let both = |i: usize| {
+        let (ty, size, alpha, alpha_first, comp) = &cases[i];
+        let combined = if *alpha_first { format!("(FROM ({alpha}) ^ SIZE ({size}))") } else { format!("(SIZE ({size}) ^ FROM ({alpha}))") };
+        if *comp {
+            (format!("S{i} ::= SEQUENCE {{ f {ty} (SIZE ({size})) }}"), format!("S{} ::= SEQUENCE {{ f {ty} {combined} }}", i + 100_000))
+        } else {
+            (format!("A{i} ::= {ty} (SIZE ({size}))"), format!("A{} ::= {ty} {combined}", i + 100_000))
+        }
+    };
+    let render = |idx: &[usize]| vec![format!("C04a-Mod DEFINITIONS AUTOMATIC TAGS ::= BEGIN\n{}\nEND\n", idx.iter().map(|i| { let (a, b) = both(*i); format!("{a}\n{b}") }).collect::<Vec<_>>().join("\n"))];
+    for (idx, outcome) in batch_compile(cases.len(), 60, &render, &rcfg) {
+        match outcome {
+            Outcome::Ok { generated, warnings } => {
+                let Ok(mods) = proj::project(&generated) else { continue };
+                let Some(m) = mods.first() else { continue };
+                for i in idx {
+                    rep.evaluations += 1;
+                    let probe = Case { ctx: if cases[i].4 { Ctx::Ia5Comp } else { Ctx::IntAssign }, cons: vec![], words: false };
+                    let show = |o: &Obs| match o {
+                        Obs::None => "none".to_string(),
+                        Obs::Attr { size, lo, hi, ext } => format!("( attr {} {} {} {} )", sx_bool(*size), sx_opt(lo), sx_opt(hi), sx_bool(*ext)),
+                        Obs::Bad(b) => format!("unparsed {b}"),
+                    };
+                    match (observe(m, &probe, i), observe(m, &probe, i + 100_000)) {
+                        (Ok(a), Ok(b)) => {
+                            rep.count("size-with-alphabet");
+                            rep.distinct.insert(format!("size-alpha|{:?}", cases[i]));
+                            if show(&a) != show(&b) {
+                                let (x, y) = both(i);
+                                rep.unsat("", false, json!({"why": format!("the size annotation of `{y}` is {} while the size constraint alone (`{x}`) gives {}", show(&b), show(&a)), "case": {"size_alphabet": [cases[i].0, cases[i].1, cases[i].2, cases[i].3, cases[i].4]}}));
+                            }
+                        }
+                        _ => {
+                            let n = if cases[i].4 { "S" } else { "A" };
+                            if warnings.iter().any(|w| w.contains(&format!("{n}{i}")) || w.contains(&format!("{n}{}", i + 100_000))) {
+                                rep.count("not-judged:dropped-with-warning");
+                            } else {
+                                rep.count("size-with-alphabet:unobserved");
+                            }
+                        }
+                    }
+                }
+            }
+            Outcome::Err(e) => {
+                rep.count("compile-err");
+                rep.sample(json!({"compile_err": e, "asn1": both(idx[0]).1}));
+            }
+            Outcome::Panic(p) => rep.harness_errors.push(format!("panic on {}: {p}", both(idx[0]).1)),
+        }
     }
 }
 
